@@ -21,12 +21,16 @@ def _ctor(cfg):
         "similarity": lambda s, t: mt.AlignmentSimilarity(s, t),
         "similarity_m": lambda s, t: mt.AlignmentSimilarity(s, t, allow_mirror=True),
         "similarity_norot": lambda s, t: mt.AlignmentSimilarity(s, t, rotation=False),
+        "similarity_norot_m": lambda s, t: mt.AlignmentSimilarity(s, t, rotation=False, allow_mirror=True),
         "affine": lambda s, t: mt.AlignmentAffine(s, t),
         "pwa": lambda s, t: mt.PiecewiseAffine(s, t),
         "tps": lambda s, t: mt.ThinPlateSplines(s, t),
         "tps_r2logr": lambda s, t: mt.ThinPlateSplines(s, t, kernel=rbf.R2LogRRBF(s.points)),
         "tps_msv": lambda s, t: mt.ThinPlateSplines(s, t, min_singular_val=1e-3),
     }[cfg]
+
+
+SYM = ("pwa", "tps", "tps_r2logr", "tps_msv")
 
 
 def fit_matrix(fit):
@@ -61,6 +65,15 @@ class World:
         bad4 = PointCloud(np.hstack([self.targets[1], np.ones((len(src), 1))]))
         self.tobj[3], self.tobj[4] = bad3, bad4
         self.tobj[5] = PointCloud(self.targets[1].reshape(len(src) // 2, -1).copy())      # same number of coordinates, other shape
+        # a 3-D shadow of every homogeneous-family alignment: the same history on point sets lifted out of the plane (no closed form -
+        # the reference is a fresh construction, which is what C08 states: independent of what was set before)
+        self.als3 = []
+        self.zs = np.array([0.0, 1.0, -2.0, 3.0, 1.5, -0.5, 2.5, -1.5])[:len(src)]
+
+    def lift(self, P, v=0):
+        """3-D lift of a planar point set; the third coordinate depends on the value index, not coplanar"""
+        z = self.zs * (1.0 + 0.5 * (v % 3)) + 0.25 * v
+        return np.hstack([np.asarray(P, dtype=float), z[:len(P), None]])
 
     def source(self, cfg):
         from menpo.shape import PointCloud, TriMesh
@@ -82,9 +95,14 @@ class World:
             s = self.source(cfg)
             self.src_objs.append(s)
             self.als.append(_ctor(cfg)(s, self.tobj[1]))
+            self.als3.append(None if cfg in SYM else _ctor(cfg)(PointCloud(self.lift(self.src_pts)), PointCloud(self.lift(self.targets[vals[0]], vals[0]))))
         elif op == "set_target":
             try:
                 self.als[ev["a"] - 1].set_target(self.tobj[ev["o"]])
+                a3 = self.als3[ev["a"] - 1]
+                if a3 is not None and ev["o"] <= 2:
+                    v = ev["vals"][ev["o"] - 1]
+                    a3.set_target(PointCloud(self.lift(self.targets[v], v)))
             except ValueError:
                 err = "ValueError"
             except Exception as e:       # the target was not refused up front and something deeper fell over
@@ -95,6 +113,7 @@ class World:
             al = self.als[ev["a"] - 1]
             v = np.array(al.as_vector(), dtype=float)
             al.from_vector_inplace(v + np.array([0.3, 0.7, -0.2, 0.5, 0.25, -0.4, 0.1, 0.6])[:len(v)])
+            self.als3[ev["a"] - 1] = None       # (the shadow follows fits only)
         elif op == "pinv":
             al = self.als[ev["a"] - 1]
             inv = al.pseudoinverse()
@@ -126,6 +145,8 @@ class World:
                         return "retargeting the inverse alignment differs from building it afresh from its own source (target value %d)" % v
         elif op == "copy":
             self.als.append(self.als[ev["a"] - 1].copy())
+            a3 = self.als3[ev["a"] - 1]
+            self.als3.append(None if a3 is None else a3.copy())
             self.src_objs.append(self.src_objs[ev["a"] - 1])
         if err != ev["err"]:
             return "outcome %r, expected %r" % (err or "ok", ev["err"] or "ok")
@@ -179,7 +200,7 @@ class World:
                     return tag + ": alignment_error %.12g, expected %.12g" % (got_err, want_err)
             if not L.close(al.aligned_source().points, al.apply(self.src_pts), 1e-12):
                 return tag + ": aligned_source() is not the transform applied to the source"
-            if cfg in ("translation", "similarity", "similarity_m", "similarity_norot", "affine", "tps"):
+            if cfg in ("translation", "similarity", "similarity_m", "similarity_norot", "similarity_norot_m", "affine", "tps"):
                 # the families that contain translations are translation-equivariant: the same configuration far from the origin
                 # (offsets 1e5, not whole numbers) gives the same fit carried along - "all non-degenerate point sets"
                 far_t = np.array([1.0e5 + 0.25, -2.0e5 + 0.5])
@@ -189,9 +210,85 @@ class World:
                 # (the affine fit solves uncentred normal equations: at offsets of 1e5 it keeps ~6 digits - accuracy, not the property)
                 if hasattr(far, "h_matrix") and not np.allclose(far.h_matrix[:2, :2], fresh.h_matrix[:2, :2], rtol=0, atol=1e-5 if cfg == "affine" else 1e-9):
                     return tag + ": the linear part of the fit changes when both point sets are translated far from the origin"
+            r = self._derived(al, cfg, fresh, fitted_to, probe, tag) or self._number_types(cfg, fresh, fitted_to, probe, tag, ev, i) \
+                or self._shadow(i, cfg, view, tag)
+            if r:
+                return r
             e2 = float(np.linalg.norm(al.target.points - al.aligned_source().points))
             if abs(al.alignment_error() - e2) > 1e-9 * max(1.0, e2):
                 return tag + ": alignment_error is not the distance between aligned source and target"
+        return None
+
+
+    # ---- clauses shared by every configuration -------------------------------------------------------------------------
+    def _maps(self, a, b, probe, tol=1e-9):
+        if hasattr(a, "h_matrix") and hasattr(b, "h_matrix"):
+            return L.close(a.h_matrix, b.h_matrix, tol)
+        return np.allclose(a.apply(probe), b.apply(probe), atol=max(tol, 1e-8 * self.diam), rtol=0)
+
+    def _derived(self, al, cfg, fresh, fitted_to, probe, tag):
+        """objects derived from an alignment (its inverse, a copy) are independent of it: retargeting one never moves the other"""
+        from menpo.shape import PointCloud
+
+        if cfg == "pwa":
+            return None
+        X = self.targets[6] if not np.array_equal(fitted_to, self.targets[6]) else self.targets[2]
+        c = al.copy()
+        inv = c.pseudoinverse()
+        inv_ref = c.pseudoinverse()
+        before_c = c.apply(probe)
+        src_inv = inv.source.points.copy()
+        try:
+            inv.set_target(PointCloud(X.copy()))
+        except Exception as e:
+            return tag + ": retargeting the inverse raised %s" % type(e).__name__
+        if not np.array_equal(c.apply(probe), before_c):
+            return tag + ": retargeting the pseudoinverse of an alignment changed the alignment it was derived from"
+        before_inv = inv.apply(probe)
+        c.set_target(PointCloud(X.copy()))
+        if not np.array_equal(inv.apply(probe), before_inv):
+            return tag + ": retargeting an alignment changed the pseudoinverse taken from it earlier"
+        if not np.array_equal(inv_ref.source.points, src_inv):
+            return tag + ": retargeting changed the source of an inverse taken earlier"
+        fx = _ctor(cfg)(self.source(cfg), PointCloud(X.copy()))
+        if not self._maps(c, fx, probe):
+            return tag + ": a copy retargeted after its inverse was taken and retargeted differs from a fresh construction"
+        return None
+
+    def _number_types(self, cfg, fresh, fitted_to, probe, tag, ev, i):
+        """point sets stored as float32 / whole numbers are the same point sets (the pooled coordinates are whole numbers)"""
+        from menpo.shape import PointCloud, TriMesh
+
+        if ev["op"] not in ("build", "set_target") or i != (ev.get("a") or 1) - 1:
+            return None
+        for dt in (np.float32, np.int64):
+            S = self.src_pts.astype(dt)
+            src = TriMesh(S, trilist=np.array([[0, 1, 2], [0, 2, 3]])) if cfg == "pwa" else PointCloud(S)
+            try:
+                other = _ctor(cfg)(src, PointCloud(fitted_to.astype(dt)))
+                got = np.asarray(other.apply(probe), dtype=float)
+            except Exception as e:
+                return tag + ": refused / failed on the same point sets stored as %s (%s: %s)" % (np.dtype(dt).name, type(e).__name__, str(e)[:100])
+            if not np.allclose(got, fresh.apply(probe), rtol=0, atol=1e-4 * max(1.0, self.diam)):
+                return tag + ": the fit to the same point sets stored as %s is a different map" % np.dtype(dt).name
+        return None
+
+    def _shadow(self, i, cfg, view, tag):
+        """the 3-D shadow, carried through the same build / set_target / copy history, equals a fresh 3-D construction"""
+        from menpo.shape import PointCloud
+
+        a3 = self.als3[i]
+        if a3 is None:
+            return None
+        v = view["fitval"]
+        T3 = self.lift(self.targets[v], v)
+        f3 = _ctor(cfg)(PointCloud(self.lift(self.src_pts)), PointCloud(T3.copy()))
+        if not L.close(a3.h_matrix, f3.h_matrix, 1e-9):
+            return tag + ": the same history on 3-D point sets leaves a map that differs from a freshly constructed 3-D alignment"
+        if not L.close(a3.aligned_source().points, f3.aligned_source().points, 1e-9) or abs(a3.alignment_error() - f3.alignment_error()) > 1e-9 * max(1.0, f3.alignment_error()):
+            return tag + ": 3-D aligned source / alignment error depend on the history"
+        if not L.close(a3.target.points, T3, 0):
+            return tag + ": 3-D target is not the point set it was (re)targeted to"
         return None
 
 
